@@ -44,6 +44,28 @@ CLAIMED = {
         "str.strip is uninterpreted; click's option parsing and sys.exit are trusted. NOT covered yet: validation of "
         "declared/mandatory generator arguments and the exit-status paths of check/generate.",
         "DESIGN.md 5/C30", ""),
+    "C07": (
+        "PlainName.__call__ is proved against the statement: the model search is asked for exactly 'has a name equal "
+        "to the reference text and conforms to the target class' starting at the model root; one match is returned, "
+        "several raise the located 'not unique' error, none gives None. The resolution loop body is proved to use the "
+        "builtins entry only when the provider returned None and the entry conforms (textx_isinstance, itself proved "
+        "equal to the conformance relation over _tx_inh_by), and to raise 'Unknown object' exactly when nothing was "
+        "found; a resolved target is stored in / appended to the attribute.",
+        "get_children is used through an assumed contract (all contained objects satisfying the selector, once each); "
+        "its traversal is only covered by the bounded stand-in of C05. Termination of textx_isinstance needs acyclic "
+        "_tx_inh_by (assumed, see C03). Scope providers are External callables.",
+        "DESIGN.md 5/C07, Appendix B", ""),
+    "C28": (
+        "Error construction sites proved to carry file/line/col of the offending text: unknown object (file of the "
+        "resolver's model, position of the cross-ref by the resolver's parser), non-unique name (PlainName), syntax "
+        "error (_parse forwards the NoMatch location and the parsing parser's file), unresolvable postponed references "
+        "(location computed by the parser of the model owning the reference, file of that model). The cross-ref "
+        "positions themselves are proved to be those of the reference's own parse node for plain and list assignments "
+        "(per-element step contract of process_node).",
+        "Arpeggio NoMatch fields and pos_to_linecol are trusted (T-ARP). That resolver.parser is the model's own "
+        "parser is established where the resolver is created (not yet under contract). The induction from the "
+        "per-element step contracts to the whole loops is the modular structure, not a solver obligation.",
+        "DESIGN.md 5/C28", ""),
     "C12": (
         "Every __repr__ of the RREL classes (Parent, Navigation, Brackets, Dots, Sequence, ZeroOrMore, Path, "
         "Expression) is proved equal to a spec printer written production by production from the RREL grammar "
